@@ -23,7 +23,7 @@ func (node *InternallyConsistentOutputStreamWrapper) Run(ctx ExecutionContext, p
 				afterWatermarkCount++
 			}
 		}
-		newPending := make([]Record, afterWatermarkCount)
+		newPending := make([]Record, 0, afterWatermarkCount)
 		for i := range pending {
 			if pending[i].EventTime.After(watermark) {
 				newPending = append(newPending, pending[i])
@@ -41,7 +41,8 @@ func (node *InternallyConsistentOutputStreamWrapper) Run(ctx ExecutionContext, p
 				// TODO: Optimize. Use a sensible data structure.
 			findRetractionLoop:
 				for j := i + 1; j < len(pending); j++ {
-					if !pending[j].Retraction {
+					// Skip retractions which are already used or which stay pending (event time after the watermark).
+					if !pending[j].Retraction || crossedOut[j] {
 						continue
 					}
 					for k := range pending[i].Values {
